@@ -158,7 +158,23 @@ harnesses! {
         let t = client_timer_arg(any_u64(), ctx_with(deadline));
         arming_is_exact(now, deadline, t);
     }
-    /// Server-side slice of the same arithmetic (reported under C16's evidence, C06 is not claimed).
+    /// C06: a request that arrives late (any transit/queueing delay on the server side before it
+    /// is registered) still expires at its deadline: registration time + timer == deadline.
+    fn c06_server_late_registration() [unwind 3] {
+        let arrival = sym_now();
+        let deadline = sym_instant();
+        let delay = Duration::new(any_u32() as u64, any_u32() % 1_000_000_000);
+        let registered = arrival + delay;
+        let (s, n) = instant_parts(registered);
+        set_now(s, n);
+        let t = server_timer_arg(any_u64(), deadline);
+        arming_is_exact(registered, deadline, t);
+        if deadline >= registered && deadline.duration_since(registered) <= SUPPORTED_SPAN {
+            assert!(registered + t == deadline);
+        }
+    }
+    /// C06 / C16: the value the server arms its DelayQueue with (extracted expression): never
+    /// later than the deadline, exactly at it for spans <= 365 days, zero when already expired.
     fn c16_server_arming_exact() [unwind 3] {
         let now = sym_now();
         let deadline = sym_instant();
